@@ -30,6 +30,11 @@ def _orig(r, ident, used_names, plain=False):
     x = r.random()
     if x < 0.5:
         name = ident
+    elif 0.6 <= x < 0.66 and used_names and not plain:
+        # a name with a wildcard character in it, chosen so that - read as a pattern - it would match a sibling that
+        # was named earlier (names are free text: "mult*" is a name, not a pattern)
+        e = sorted(used_names)[r.randrange(len(used_names))]
+        name = r.choice([e[:1] + "*", e[:-1] + "?" if len(e) > 1 else e + "?", "*", e + "*"])
     elif x < 0.6 and ident.swapcase() != ident:
         # the original name differs from the identifier in letter case only:  (rename xp_clk "XP_CLK")
         name = r.choice([ident.upper(), ident.swapcase(), ident.capitalize()])
